@@ -32,6 +32,8 @@ structure CmdS where
   interspersed : Bool
   noFlagParse : Bool
   whitelist : Bool := false
+  /-- the command has a `Version`: cobra (and carapace's actionFlags) add a `--version` flag to it, with the shorthand `-v` if that is free -/
+  version : Bool := false
   flags : List FlagS
   npos : Nat
   posAny : Bool
@@ -53,7 +55,7 @@ def FlagS.fork (f : FlagS) : Bool := f.nargs != 0 || (f.delim != "" && f.delim !
 
 def parseCmdS (j : Json) : CmdS :=
   { name := jstr (jget j "name"), aliases := (jarr j "aliases").toList.map jstr, parent := jint j "parent", hidden := jbool j "hidden",
-    deprecated := jbool j "deprecated", interspersed := jbool j "interspersed", noFlagParse := jbool j "disableFlagParsing", whitelist := jbool j "whitelist",
+    deprecated := jbool j "deprecated", interspersed := jbool j "interspersed", noFlagParse := jbool j "disableFlagParsing", whitelist := jbool j "whitelist", version := jbool j "version",
     flags := (jarr j "flags").toList.map parseFlagS, npos := jnat j "npos", posAny := jbool j "posAny", ndash := jnat j "ndash",
     dashAny := jbool j "dashAny" }
 
@@ -96,12 +98,24 @@ partial def flagOwner (cmds : Array CmdS) (c : Nat) (name : String) (own : Bool 
     if cs.flags.any (fun f => f.name == name && (own || f.persistent)) then some c
     else if cs.parent < 0 then none else flagOwner cmds cs.parent.toNat name false
 
-partial def flagsVisible (cmds : Array CmdS) (c : Nat) (own : Bool := true) : List FlagS :=
+partial def flagsVisibleSpec (cmds : Array CmdS) (c : Nat) (own : Bool := true) : List FlagS :=
   match cmds[c]? with
   | none => []
   | some cs =>
     let mine := cs.flags.filter (fun f => own || f.persistent)
-    if cs.parent < 0 then mine else mine ++ (flagsVisible cmds cs.parent.toNat false).filter (fun f => !mine.any (fun g => g.name == f.name))
+    if cs.parent < 0 then mine else mine ++ (flagsVisibleSpec cmds cs.parent.toNat false).filter (fun f => !mine.any (fun g => g.name == f.name))
+
+/-- the flags the program accepts on command `c`: the declared ones and, for a command with a `Version`, cobra's
+    automatic `--version` (`InitDefaultVersionFlag`: unless a flag of that name exists; shorthand `-v` unless taken) -/
+def flagsVisible (cmds : Array CmdS) (c : Nat) : List FlagS :=
+  let vis := flagsVisibleSpec cmds c
+  match cmds[c]? with
+  | some cs =>
+    if cs.version && !vis.any (fun f => f.name == "version") then
+      vis ++ [{ name := "version", short := if vis.any (fun f => f.short == "v") then "" else "v", kind := "bool", persistent := false,
+                hidden := false, deprecated := false, shortDeprecated := false, mutex := [] }]
+    else vis
+  | none => vis
 
 /-- `M<cmd>_<kind>` inside a candidate -/
 def findMarker (v : String) : Option (Nat × String) :=
